@@ -40,7 +40,12 @@ for d in sorted(glob.glob(os.path.join(ROOT, "seeded", "*"))):
     verdict = "not run yet"
     if os.path.exists(rp):
         r = json.load(open(rp))
-        verdict = ", ".join("%s: %s" % (k, "caught" if v.get("caught") else "MISSED") for k, v in r.get("checks", {}).items()) or r.get("error", "?")
+        def one(k, v):
+            t = "%s: %s" % (k, "caught" if v.get("caught") else "MISSED")
+            if v.get("caught") and any(e.get("caught") is False for e in v.get("earlier", [])):
+                t += " (MISSED at /verif %s; the check was strengthened afterwards)" % next(e.get("verif") or "?" for e in v["earlier"] if e.get("caught") is False)
+            return t
+        verdict = ", ".join(one(k, v) for k, v in r.get("checks", {}).items()) or r.get("error", "?")
     hist = os.path.join(d, "history.json")
     if os.path.exists(hist):
         verdict += " (" + cell(json.load(open(hist)).get("note", ""), 200) + ")"
